@@ -40,6 +40,8 @@ for pid, txt in {
     "C06": "every single resolver call of each request is made to fail in turn (pairs in the thorough tier); the error paths (multiset) and the data must equal Sem's",
     "C09": "all 7x7 states of @skip/@include x both orders x field/inline/spread x two depths: response keys and resolver call log must equal Sem's",
     "C11": "sessions of MCReuse.tla (one parse, up to 3-4 resolves with every sequence of operation/variable choices) replayed on one real Executable: every response must equal Sem's for a fresh parse and the printed form must not change (action property ParsedUnchanged in the specification)",
+    "C02": "the common-feature families executed on all strategies (Resolver objects, AnyResolver, reflection bound by name / RegisterType / @go) and on mixed graphs with every node assignment: each response must equal Sem's, and each call must be served by the strategy the precedence rule Sem!Via prescribes",
+    "C08": "every container kind x type condition x concrete type (inline and named fragments, nested) on the reflection strategy in the three binding modes: data (incl. __typename) and call log must equal Sem's, whose fragment applicability is the relation GQLCore!Applies",
     "C10": "one defect injected per request (undefined field / undeclared argument / missing required argument / unknown, misplaced or ill-formed directive / undefined type condition) "
            "under every container kind: error coverage naming the offender, call log (offender never invoked) and sibling data must equal Sem's",
 }.items():
